@@ -99,6 +99,13 @@ def execute(kind, programs, choose_factory, sched=None, group=None):
         rp.s_of_raw, rp.t_of_raw = dict(shared[2]), dict(shared[3])
 
         def body(worker):
+            try:
+                return inner(worker)
+            except BaseException as e:  # noqa: a killed worker unwinds here
+                if type(e).__name__ != "Killed":
+                    raise
+
+        def inner(worker):
             own = None
             for op in prog:
                 op = dict(op)
@@ -107,6 +114,8 @@ def execute(kind, programs, choose_factory, sched=None, group=None):
                 rec = ["start", w, op, None]
                 sched.event(rec)
                 ret, raw = call_raw(rp, op)
+                if getattr(worker, "kill", False):
+                    return                      # the worker died inside this call: no reply, nothing more
                 if raw is not None and op["a"] == "create_trial":
                     own = raw
                 rec[3] = (ret, raw)
@@ -122,6 +131,16 @@ def execute(kind, programs, choose_factory, sched=None, group=None):
                                           r[2]["a"] == "create_trial" and r[3][1] is not None})
     created_s = sorted(set(shared[0]) | {r[3][1] for r in raw_events if r[0] == "start" and r[1] > 0 and r[3] and
                                           r[2]["a"] == "create_study" and r[3][1] is not None})
+    # objects created by a call that never returned (its worker died inside it) are known only from the storage itself
+    try:
+        for fs in observer.get_all_studies():
+            if fs._study_id not in created_s:
+                created_s = sorted(set(created_s) | {fs._study_id})
+            for ft in observer.get_all_trials(fs._study_id, deepcopy=False):
+                if ft._trial_id not in created_t:
+                    created_t = sorted(set(created_t) | {ft._trial_id})
+    except Exception:
+        pass
     t_of_raw = {r: i + 1 for i, r in enumerate(created_t)}
     s_of_raw = {r: i + 1 for i, r in enumerate(created_s)}
     obs.rawT, obs.t_of_raw, obs.rawS, obs.s_of_raw = created_t, t_of_raw, created_s, s_of_raw
@@ -133,8 +152,10 @@ def execute(kind, programs, choose_factory, sched=None, group=None):
         if w == 0:
             ev.append({"e": "start", "w": 0, "op": op, "ret": res})
             continue
-        if res is None:         # the worker never finished this call (deadlock): leave it pending
-            ev.append({"e": "start", "w": w, "op": fix_op(op, t_of_raw), "ret": {"k": "err", "v": "NeverReturned"}})
+        if res is None:         # the worker never finished this call: it was killed inside it, or dead-locked
+            killed = any(getattr(wk, "kill", False) for wk in sched.workers if wk.wid == w)
+            ev.append({"e": "start", "w": w, "op": fix_op(op, t_of_raw),
+                       "ret": {"k": "err", "v": "Crashed" if killed else "NeverReturned"}})
             continue
         ret, raw = res
         ev.append({"e": "start", "w": w, "op": fix_op(op, t_of_raw), "ret": project(obs, op, ret, raw, s_of_raw, t_of_raw)})
